@@ -34,6 +34,7 @@ TNext == \/ Is("Submit") /\ P!Submit(E.k) /\ Adv
          \/ Is("StopRet") /\ P!StopRetM(E.n, Mode = "C08") /\ Adv
          \/ Is("WorkerStart") /\ P!WorkerStartM(E.w, IF Mode = "C08" THEN mx ELSE 1000) /\ Adv
          \/ Is("WorkerExit") /\ P!WorkerExit(E.w) /\ Adv
+         \/ Is("MaxSet") /\ mx' = E.n /\ l' = l + 1 /\ UNCHANGED <<x, ts, inClear, inStop, stopped, live>>
          \/ Is("Quiescent") /\ P!Quiescent /\ Adv
          \/ Is("Done") /\ P!Done /\ Adv
 TSpec == TInit /\ [][TNext]_<<x, l, ts, inClear, inStop, stopped, live, mx>>
